@@ -333,6 +333,7 @@ class Run:
         known, _fixed = load_known(self.prop)
         os.makedirs(REPLAYS, exist_ok=True)
         seen_sig = set()
+        allkeys = {}
         per_kind = {}
         out_lines = []
         nviol = 0
@@ -349,6 +350,7 @@ class Run:
                 self.known_hit.setdefault(hit["key"], [hit, 0])[1] += 1
                 continue
             nviol += 1
+            allkeys[key] = allkeys.get(key, 0) + 1
             if key in seen_sig or len(seen_sig) >= 25 or per_kind.get(m["kind"], 0) >= 3:
                 continue
             per_kind[m["kind"]] = per_kind.get(m["kind"], 0) + 1
@@ -360,6 +362,9 @@ class Run:
                        "case": c.desc if c else None, "script": lines}, open(rp, "w"))
             out_lines.append("VIOLATION property=%s replay=%s" % (self.prop, rp))
             log("  mismatch %s expected=%s observed=%s" % (key, m["expected"][:160], m["observed"][:160]))
+        if os.environ.get("VERIF_ALLKEYS"):      # triage aid: every unlisted key with its count
+            for k, n in sorted(allkeys.items()):
+                log("  key %5d %s" % (n, k))
         for k, (hit, n) in sorted(self.known_hit.items()):
             print("KNOWN-FINDING: property=%s %s (%d occurrences, key %s)" % (self.prop, hit["what"], n, k))
         for l in out_lines:
